@@ -146,8 +146,13 @@ func serializeVariableRecords(epoch time.Time, intervalsPerDay uint32, wtSet *wa
 	// 1 record size = 8byte(Epoch) + columns + intervalTicks(4byte) = 8byte(Epoch) + VariableLengthRecord
 	cursor := 0
 	for i := 0; i < numRows; i++ {
-		// serialize Epoch (variable length records in a WTSet have the same Epoch value)
-		buf, err = io.Serialize(buf[:cursor], epoch.Unix())
+		// expand the record's intervalTicks (its last 4 bytes) to Epoch second and Nanosecond: the records
+		// of a WTSet share the interval, not the second (writing the interval start for all of them moved
+		// every record to the first second of its interval on the replica)
+		record := payload[i*varRecLen : (i+1)*varRecLen]
+		second, _ := executor.GetTimeFromTicks(uint64(epoch.Unix()), intervalsPerDay,
+			io.ToUInt32(record[varRecLen-IntervalTicksBytes:]))
+		buf, err = io.Serialize(buf[:cursor], int64(second))
 		if err != nil {
 			return nil, errors.Wrap(err, "failed to serialize Epoch to buffer:"+epoch.String())
 		}
